@@ -167,6 +167,45 @@ func runC10(p *core.Prog, r *core.Report) {
 					return
 				}
 				cst := "flag lookup in " + fnName(f) + " (" + sx.ValPath(lk.Index) + ")"
+				// the name looked up is a piece of the token itself: cut out of it by slicing, never rewritten (case-folded,
+				// trimmed, replaced) — "-Name" and "-name" are different flags, "---x" is not "-x"
+				if _, isConst := sx.ConstString(lk.Index); !isConst {
+					via := ""
+					seen := map[ssa.Value]bool{}
+					var walk func(v ssa.Value, d int)
+					walk = func(v ssa.Value, d int) {
+						v = sx.Unspill(v)
+						if v == nil || seen[v] || d > 12 {
+							return
+						}
+						seen[v] = true
+						switch x := v.(type) {
+						case *ssa.Slice:
+							walk(x.X, d+1)
+						case *ssa.Phi:
+							for _, e := range x.Edges {
+								walk(e, d+1)
+							}
+						case *ssa.Call:
+							if _, isB := x.Call.Value.(*ssa.Builtin); !isB {
+								switch sx.CalleeName(x) {
+								case "strings.Cut", "strings.CutPrefix", "strings.TrimPrefix", "strings.SplitN", "strings.Split":
+									// these return pieces of their first argument unchanged
+									walk(x.Call.Args[0], d+1)
+								default:
+									via = short(sx.CalleeName(x)) + " at " + p.Pos(x.Pos())
+								}
+							}
+						case *ssa.Index, *ssa.Lookup, *ssa.UnOp:
+						case *ssa.Extract:
+							walk(x.Tuple, d+1)
+						case *ssa.BinOp:
+							via = "string arithmetic at " + p.Pos(x.Pos())
+						}
+					}
+					walk(lk.Index, 0)
+					r.Check(via == "", "C10-R3", cst+": the name is a slice of the token", p.Pos(in.Pos()), "derived from the argument by slicing only", "the name used to look the flag up is computed by "+via+", not cut out of the token as it stands: differently spelled tokens (other case, extra dashes, …) are taken for a defined flag, or a defined flag is not found")
+				}
 				if !lk.CommaOk {
 					r.Fail("C10-R3", cst, p.Pos(in.Pos()), "flagMap is read without the comma-ok form: an undefined flag yields a nil *Flag")
 					return
